@@ -92,7 +92,9 @@ def snapshot(event):
     if n == 'connecting':
         return (n, event.url)
     if n == 'protocol_error':
-        return (n,)
+        # the text and the flag are what the application sees of it
+        return (n, str(getattr(event, 'error', '')),
+                bool(getattr(event, 'critical', False)))
     if n == 'back_off':
         return (n, event.delay)
     if n == 'rejected':
@@ -496,8 +498,42 @@ def observe_release(trace):
 _RUNS = [0]
 
 
+class _Watchdog(object):
+    """A loop inside the library that never calls into the simulated world
+    (no socket, clock or lock operation) cannot exhaust any simulated budget:
+    a wall-clock alarm (generous: 30 s for runs that take milliseconds to
+    seconds) turns it into a reported hang instead of a dead worker."""
+
+    def __init__(self, seconds=30):
+        self.seconds = seconds
+        self.old = None
+
+    def _fire(self, signum, frame):
+        raise W.SimHang('no simulated operation for %d s of real time: an '
+                        'endless loop inside the library' % self.seconds)
+
+    def __enter__(self):
+        import signal
+        import threading
+        if threading.current_thread() is threading.main_thread():
+            self.old = signal.signal(signal.SIGALRM, self._fire)
+            signal.alarm(self.seconds)
+        return self
+
+    def __exit__(self, *a):
+        import signal
+        if self.old is not None:
+            signal.alarm(0)
+            signal.signal(signal.SIGALRM, self.old)
+
+
 def run(scen):
     """Execute one scenario; returns a Trace."""
+    with _Watchdog():
+        return _run(scen)
+
+
+def _run(scen):
     W.install()
     # gc is disabled while a simulation runs (Parser <-> coroutine cycles
     # have __del__); collect between runs so 64 KiB session buffers held by
